@@ -128,6 +128,7 @@ type ClientObs struct {
 	Hdr     MD        `json:"hdr"`
 	Trl     MD        `json:"trl"`
 	Clean   bool      `json:"clean"`  // response stream well-formed to the end
+	Forged  []string  `json:"forged"` // reserved keys under which the client can see a value the handler put there
 	WsFits  bool      `json:"wsfits"` // ws: the status message fits into a close frame (<= 123 bytes)
 	Note    string    `json:"note"`
 	BodyLen int       `json:"bodylen"`
@@ -1186,7 +1187,7 @@ func runRpcCase(c RpcCase) RpcEv {
 		c.ReqWant = MD{}
 	}
 	ev := RpcEv{Ev: "Rpc", Case: c.ID, C: c, Stats: []StatEv{}, ICalls: []ICall{}, Sent: []int{}, Replies: []int{}, ReqWant: c.ReqWant}
-	ev.Cl = ClientObs{Msgs: []RecvObs{}, Hdr: MD{}, Trl: MD{}, Status: StatusObs{Shape: []string{}}}
+	ev.Cl = ClientObs{Msgs: []RecvObs{}, Hdr: MD{}, Trl: MD{}, Status: StatusObs{Shape: []string{}}, Forged: []string{}}
 	ev.H = HandlerObs{Recv: []RecvObs{}, Sends: []SendObs{}, HdrErrs: []string{}, MD: MD{}}
 	if ev.C.Opts == nil {
 		ev.C.Opts = []string{}
@@ -1301,6 +1302,7 @@ func runRpcCase(c RpcCase) RpcEv {
 	if ev.Cl.Status.Shape == nil {
 		ev.Cl.Status.Shape = []string{}
 	}
+	ev.Cl.Forged = e.forgedKeys(ev.Cl.Hdr, ev.Cl.Trl)
 	// keep the trace small: only custom and protocol keys of interest
 	ev.Cl.Hdr = hexBinB64(filterMD(ev.Cl.Hdr))
 	ev.Cl.Trl = hexBinB64(filterMD(ev.Cl.Trl))
@@ -1318,6 +1320,59 @@ func runRpcCase(c RpcCase) RpcEv {
 	}
 	return ev
 }
+
+// forgedKeys lists the protocol-reserved keys whose handler-supplied value is visible to the client in hdr or trl (raw
+// response metadata: -bin values base64 on the wire, raw from grpc-go).
+func (e *rpcEnv) forgedKeys(hdr, trl MD) []string {
+	out := []string{}
+	seen := map[string]bool{}
+	for _, st := range e.c.Script {
+		if st.Op != "sethdr" && st.Op != "settrl" && st.Op != "sendhdr" {
+			continue
+		}
+		for k, vs := range st.MD {
+			if !reservedOutKeys[k] || seen[k] {
+				continue
+			}
+			for _, v := range vs {
+				if k == "grpc-status" && v == strconv.Itoa(e.retCode()) {
+					continue // the handler's value coincides with the real status: nothing to tell apart
+				}
+				forms := []string{v}
+				if strings.HasSuffix(k, "-bin") {
+					if raw, err := hex.DecodeString(v); err == nil {
+						forms = []string{string(raw), base64.StdEncoding.EncodeToString(raw), base64.RawStdEncoding.EncodeToString(raw)}
+					}
+				}
+				for _, md := range []MD{hdr, trl} {
+					for _, got := range md[k] {
+						for _, f := range forms {
+							if got == f && !seen[k] {
+								seen[k] = true
+								out = append(out, k)
+							}
+						}
+					}
+				}
+			}
+		}
+	}
+	sort.Strings(out)
+	return out
+}
+
+func (e *rpcEnv) retCode() int {
+	for _, st := range e.c.Script {
+		if st.Op == "ret" {
+			return st.Code
+		}
+	}
+	return 0
+}
+
+var reservedOutKeys = map[string]bool{"content-type": true, "user-agent": true, "grpc-message-type": true, "grpc-encoding": true,
+	"grpc-message": true, "grpc-status": true, "grpc-timeout": true, "grpc-status-details-bin": true, "te": true, "trailer": true,
+	"content-length": true, "grpc-accept-encoding": true}
 
 func filterMD(m MD) MD {
 	out := MD{}
